@@ -180,6 +180,15 @@ def inventory():
             g = UnitGen(REPO, os.path.join(VERIF, 'units')).generate(u)
             for fid, info in g.fns.items():
                 names[info['path']] = info['binders']
+        shapes = {'__items__': {}, '__sigs__': {}}
+        for u in ALL_UNITS:
+            g = UnitGen(REPO, os.path.join(VERIF, 'units')).generate(u)
+            for it in g.items:
+                if re.search(r'\b(struct|enum)\b', it['src_text'].split('{')[0]):
+                    shapes['__items__'][it['id']] = hashlib.sha256(' '.join(re.sub(r'//[^\n]*', '', it['src_text']).split()).encode()).hexdigest()[:16]
+            for fid, info in g.fns.items():
+                shapes['__sigs__'][info['path']] = info['sig_shape']
+        names.update(shapes)
         with open(os.path.join(VERIF, 'units', 'names.json'), 'w') as f:
             json.dump(names, f, indent=1, sort_keys=True)
         print('wrote the binder-name baseline for %d functions' % len(names))
@@ -270,6 +279,7 @@ def main():
             results[futs[f]] = f.result()
         kani_res = kani_fut.result() if kani_fut else None
 
+    stale_notes = []
     shaky = set()        # (unit, function) whose proof hints no longer fit the code (anchor gone / hint does not compile)
     undecided = []
     violations = []      # dict(clause, fn, tags, message, rendered, unit, site)
@@ -285,12 +295,33 @@ def main():
     minimums = json.load(open(MINIMUMS)) if os.path.exists(MINIMUMS) else {}
     invp = os.path.join(VERIF, 'units', 'inventory.json')
     inv = json.load(open(invp)) if os.path.exists(invp) else {}
+    namesp = os.path.join(VERIF, 'units', 'names.json')
+    shape_base = json.load(open(namesp)) if os.path.exists(namesp) else {}
     for u in pc['units']:
         r = results[u]
         for msg in r.undecided:
             undecided.append('%s: %s' % (u, msg))
         if r.g is None:
             continue
+        # a data-structure definition or a function signature that changed shape means the abstraction
+        # function / the contract text may describe the OLD representation: failures there are ambiguous
+        non_item_text = '\n'.join(ln for ln, mp in zip(r.g.lines, r.g.map) if mp.get('kind') != 'item')
+        stale_items = [it['id'] for it in r.g.items
+                       if it['id'] in shape_base.get('__items__', {}) and
+                       re.search(r'\b%s\b' % re.escape(it['id'].split('.')[-1].split('::')[-1]), non_item_text) and
+                       hashlib.sha256(' '.join(re.sub(r'//[^\n]*', '', it['src_text']).split()).encode()).hexdigest()[:16] != shape_base['__items__'][it['id']]]
+        if stale_items:
+            for fid in r.g.fns:
+                shaky.add((u, fid))
+            stale_notes.append('%s: definition of %s changed shape' % (u, ', '.join(stale_items)))
+            # the abstraction function was written for the old definition: nothing proved over it can be
+            # trusted to cover the new state, so the unit cannot certify the property either
+            undecided.append('%s: extraction: the definition of %s changed shape; the abstract view may no longer cover the state' % (u, ', '.join(stale_items)))
+        for fid, info in r.g.fns.items():
+            b = shape_base.get('__sigs__', {}).get(info['path'])
+            if b and info.get('sig_shape') and b != info['sig_shape']:
+                shaky.add((u, fid))
+                stale_notes.append('%s: signature of %s changed' % (u, info['path']))
         for t in scan_trusted(r.g):
             m = re.search(r'\[([\w.]+)\]$', t)
             if m and m.group(1) in r.g.fns and r.g.fns[m.group(1)]['mode'] != 'verify':
@@ -401,8 +432,8 @@ def main():
         if amb_wit and amb_wit.get('status') == 'found':
             violations = ambiguous      # confirmed on the real code by a concrete failing input
         else:
-            undecided.append('obligations %s fail, but the proof hints of %s no longer fit the code (lost anchors / renamed locals) and the bounded witness search found no failing input: undecided, not an alarm'
-                             % (sorted(set(v['clause'] for v in ambiguous)), sorted(set(str(v.get('fn')) for v in ambiguous))))
+            undecided.append('obligations %s fail, but the proof script of %s no longer fits the code (lost anchors / renamed locals / %s) and the bounded witness search found no failing input: undecided, not an alarm'
+                             % (sorted(set(v['clause'] for v in ambiguous)), sorted(set(str(v.get('fn')) for v in ambiguous)), '; '.join(stale_notes) or 'no shape change'))
 
     known, fixed = load_known()
     out_lines = []
